@@ -987,6 +987,7 @@ impl<'tcx> Cx<'tcx> {
                     statics.push(jobj(&[
                         ("path", js(&self.path(def_id))),
                         ("mut", jbool(mutability.is_mut())),
+                        ("freeze", jbool(t.is_freeze(tcx, ty::TypingEnv::fully_monomorphized()))),
                         ("ty", format!("{}", tid)),
                         ("sp", self.span(tcx.def_span(def_id))),
                     ]));
